@@ -1,10 +1,12 @@
 (* RunEq.v — element equality of the model vs the implementation, on pairs. *)
-From Statham.Model Require Import Str Json Elem Equality EqFrag.
+From Statham.Model Require Import Str Json Elem Equality EqFrag ClsFrag.
 (* case: a, b, implementation's (a == b), (b == a) *)
 Definition run_eq_case (c : elem * elem * bool * bool) : list nat :=
   match c with (a, b, iab, iba) =>
     (if Bool.eqb (elem_eq a b) iab then [] else [1%nat]) ++
     (if Bool.eqb (elem_eq b a) iba then [] else [2%nat]) ++
     (* 9: an equal pair to which C17_equal_same_verdict applies (EqFrag.goodb on both) *)
-    (if elem_eq a b && goodb 200 a && goodb 200 b then [9%nat] else [])
+    (if elem_eq a b && goodb 200 a && goodb 200 b then [9%nat] else []) ++
+    (* 10: an equal pair with object classes to which C17_equal_same_verdict_classes applies (ClsFrag.goodcb on both) *)
+    (if elem_eq a b && goodcb 200 a && goodcb 200 b then [10%nat] else [])
   end.
